@@ -1,0 +1,9 @@
+//go:build !verif
+
+package app
+
+func verifTrace(ev string, kv map[string]any) {}
+
+func verifGate(point string) {}
+
+func verifProcess(ch *channel, rsd *recSegData) {}
